@@ -26,10 +26,12 @@
 (* invariants; ppci's choice is Design*.                                      *)
 EXTENDS Integers, Sequences, FiniteSets
 
+CONSTANT Jobs    \* the link jobs under consideration: Seq([inp, lay, opt])
+                 \*   inp  Seq of input objects [secs, syms, rels, entry]
+                 \*   lay  [on, entry, mems: Seq([name, loc, size, ins: Seq([k, name, al])])]
+                 \*   opt  [partial, entry, extra: Seq([name, value])]
 VARIABLES
-    inp,     \* Seq of input objects  [secs, syms, rels, entry]
-    lay,     \* [on, entry, mems: Seq([name, loc, size, ins: Seq([k, name, al])])]
-    opt,     \* [partial, entry, extra: Seq([name, value])]
+    job,     \* index of the job being linked (the job itself never changes)
     ph,      \* "start" | "inject" | "layout" | "check" | "relax" | "relocate" | "done" | "failed"
     nxt,     \* next input object / next output relocation
     sub,     \* progress inside one inject_object: [st, k, offs, map]
@@ -37,7 +39,10 @@ VARIABLES
     placed,  \* where each input section went: Seq([o, s, sec, off, size, align])
     cur,     \* layout cursor [m, j, addr, img]
     fail     \* "" | "multiple" | "undefined" | "memory" | "entry" | "reloc"
-vars == <<inp, lay, opt, ph, nxt, sub, dst, placed, cur, fail>>
+vars == <<job, ph, nxt, sub, dst, placed, cur, fail>>
+inp == Jobs[job].inp
+lay == Jobs[job].lay
+opt == Jobs[job].opt
 
 Mk(f) == f \o <<>>                       \* force a concrete tuple (TLC evaluates [x \in S |-> e] lazily)
 Max(a, b) == IF a >= b THEN a ELSE b
@@ -99,7 +104,7 @@ NoCur == [m |-> 1, j |-> 1, addr |-> 0, img |-> <<>>]
 Start == /\ ph = "start"
          /\ dst' = StartDst
          /\ ph' = "inject" /\ nxt' = 1 /\ sub' = NoSub
-         /\ UNCHANGED <<inp, lay, opt, placed, cur, fail>>
+         /\ UNCHANGED <<job, placed, cur, fail>>
 
 -----------------------------------------------------------------------------
 (* inject_object, first loop.  pads[k] / aligns[k]: padding inserted before,  *)
@@ -136,7 +141,7 @@ InjectSections(o, pads, aligns) ==
         /\ dst' = [dst EXCEPT !.secs = r.secs]
         /\ placed' = r.placed
         /\ sub' = [st |-> "syms", k |-> 1, offs |-> r.offs, map |-> <<>>]
-    /\ UNCHANGED <<inp, lay, opt, ph, nxt, cur, fail>>
+    /\ UNCHANGED <<job, ph, nxt, cur, fail>>
 
 -----------------------------------------------------------------------------
 (* inject_object, second loop: one symbol per step *)
@@ -157,7 +162,7 @@ InjectNew(o) ==
                                    IF y.def THEN y.sec ELSE "", y.typ, y.size,
                                    IF y.def THEN <<o, sub.k>> ELSE <<0, 0>>))]
             /\ AdvanceSym(id)
-    /\ UNCHANGED <<inp, lay, opt, ph, nxt, placed, cur, fail>>
+    /\ UNCHANGED <<job, ph, nxt, placed, cur, fail>>
 
 \* merge_global_symbol on a name that exists: reference, or first definition of it
 MergeGlobal(o) ==
@@ -171,7 +176,7 @@ MergeGlobal(o) ==
                                    !.syms[g].sec = y.sec, !.syms[g].org = <<o, sub.k>>]
                   ELSE dst
         /\ AdvanceSym(dst.syms[g].id)
-    /\ UNCHANGED <<inp, lay, opt, ph, nxt, placed, cur, fail>>
+    /\ UNCHANGED <<job, ph, nxt, placed, cur, fail>>
 
 \* second definition of a global name: "Multiple defined symbol"
 DuplicateGlobal(o) ==
@@ -180,7 +185,7 @@ DuplicateGlobal(o) ==
            g == GlobalIdx(dst.syms, y.name) IN
         y.binding = "global" /\ g > 0 /\ y.def /\ dst.syms[g].def
     /\ FailWith("multiple")
-    /\ UNCHANGED <<inp, lay, opt, nxt, sub, dst, placed, cur>>
+    /\ UNCHANGED <<job, nxt, sub, dst, placed, cur>>
 
 -----------------------------------------------------------------------------
 (* inject_object, third loop + entry merge; then the next object / phase *)
@@ -204,13 +209,13 @@ InjectRelocs(o) ==
     /\ nxt' = nxt + 1 /\ sub' = NoSub /\ ph' = AfterInject
     /\ cur' = IF AfterInject = "layout" /\ Len(lay.mems) > 0
               THEN [m |-> 1, j |-> 1, addr |-> lay.mems[1].loc, img |-> <<>>] ELSE cur
-    /\ UNCHANGED <<inp, lay, opt, placed, fail>>
+    /\ UNCHANGED <<job, placed, fail>>
 \* "Multiple entry points defined"
 DuplicateEntry(o) ==
     /\ RelStep(o)
     /\ inp[o].entry # -1 /\ dst.entry # -1
     /\ FailWith("entry")
-    /\ UNCHANGED <<inp, lay, opt, nxt, sub, dst, placed, cur>>
+    /\ UNCHANGED <<job, nxt, sub, dst, placed, cur>>
 
 -----------------------------------------------------------------------------
 (* layout_sections: one memory input per step *)
@@ -231,7 +236,7 @@ PlaceSection(al) ==
            s == SecOf(d.secs, In.name) IN
         /\ dst' = d
         /\ NextIn(SecEnd(s), Append(cur.img, In.name))
-    /\ UNCHANGED <<inp, lay, opt, ph, nxt, sub, placed, fail>>
+    /\ UNCHANGED <<job, ph, nxt, sub, placed, fail>>
 
 \* SectionData(name): a copy of the section's present contents in a new section _$name_
 CopyName(n) == "_$" \o n \o "_"
@@ -244,7 +249,7 @@ PlaceSectionData(al) ==
                    copyof |-> In.name] IN
         /\ dst' = [dst EXCEPT !.secs = Append(@, new)]
         /\ NextIn(SecEnd(new), Append(cur.img, new.name))
-    /\ UNCHANGED <<inp, lay, opt, ph, nxt, sub, placed, fail>>
+    /\ UNCHANGED <<job, ph, nxt, sub, placed, fail>>
 
 \* DefineSymbol(name): an empty section _$name_ here and a global symbol at its start
 DefineSymbol(al) ==
@@ -261,17 +266,17 @@ DefineSymbol(al) ==
                               ELSE Append(@, NewSymbol(Len(@), In.name, "global", TRUE, 0, new.name,
                                                        "object", 0, <<-1, cur.m>>))]
         /\ NextIn(cur.addr, Append(cur.img, new.name))
-    /\ UNCHANGED <<inp, lay, opt, ph, nxt, sub, placed, fail>>
+    /\ UNCHANGED <<job, ph, nxt, sub, placed, fail>>
 DefineSymbolTwice ==
     /\ LayStep /\ In.k = "symbol"
     /\ LET g == GlobalIdx(dst.syms, In.name) IN g > 0 /\ dst.syms[g].def
     /\ FailWith("multiple")
-    /\ UNCHANGED <<inp, lay, opt, nxt, sub, dst, placed, cur>>
+    /\ UNCHANGED <<job, nxt, sub, dst, placed, cur>>
 
 AlignTo ==
     /\ LayStep /\ In.k = "align"
     /\ NextIn(AlignUp(cur.addr, In.al), cur.img)
-    /\ UNCHANGED <<inp, lay, opt, ph, nxt, sub, dst, placed, fail>>
+    /\ UNCHANGED <<job, ph, nxt, sub, dst, placed, fail>>
 
 \* objectfile.Image.size: from the image address to the end of its last section, gaps included
 RECURSIVE ImgEnd(_, _, _, _)
@@ -289,15 +294,15 @@ CloseMemory ==
     /\ IF cur.m < Len(lay.mems)
        THEN cur' = [m |-> cur.m + 1, j |-> 1, addr |-> lay.mems[cur.m + 1].loc, img |-> <<>>] /\ ph' = ph
        ELSE cur' = [cur EXCEPT !.m = @ + 1] /\ ph' = "check"
-    /\ UNCHANGED <<inp, lay, opt, nxt, sub, placed, fail>>
+    /\ UNCHANGED <<job, nxt, sub, placed, fail>>
 MemoryOverflow ==
     /\ MemDone
     /\ ImageSize(dst.secs, ThisImage) > Mem.size
     /\ FailWith("memory")
-    /\ UNCHANGED <<inp, lay, opt, nxt, sub, dst, placed, cur>>
+    /\ UNCHANGED <<job, nxt, sub, dst, placed, cur>>
 \* a layout without memories
 EmptyLayout == /\ ph = "layout" /\ Len(lay.mems) = 0 /\ ph' = "check"
-               /\ UNCHANGED <<inp, lay, opt, nxt, sub, dst, placed, cur, fail>>
+               /\ UNCHANGED <<job, nxt, sub, dst, placed, cur, fail>>
 
 -----------------------------------------------------------------------------
 (* check_undefined_symbols *)
@@ -306,12 +311,12 @@ CheckUndefined ==
     /\ ph = "check"
     /\ UndefinedGlobals(dst) = {}
     /\ ph' = "relax"
-    /\ UNCHANGED <<inp, lay, opt, nxt, sub, dst, placed, cur, fail>>
+    /\ UNCHANGED <<job, nxt, sub, dst, placed, cur, fail>>
 UndefinedFound ==
     /\ ph = "check"
     /\ UndefinedGlobals(dst) # {}
     /\ FailWith("undefined")
-    /\ UNCHANGED <<inp, lay, opt, nxt, sub, dst, placed, cur>>
+    /\ UNCHANGED <<job, nxt, sub, dst, placed, cur>>
 
 (* do_relaxations when no relocation can shrink: nothing changes.  (Property  *)
 (* C13 replaces this by a Relax action built from AlignUp / SecEnd / SymAddr.) *)
@@ -319,7 +324,7 @@ RelaxNone ==
     /\ ph = "relax"
     /\ ph' = (IF Len(dst.rels) = 0 THEN "done" ELSE "relocate")
     /\ nxt' = 1
-    /\ UNCHANGED <<inp, lay, opt, sub, dst, placed, cur, fail>>
+    /\ UNCHANGED <<job, sub, dst, placed, cur, fail>>
 
 -----------------------------------------------------------------------------
 (* _do_relocation: the bytes of the field are rewritten, nothing else         *)
@@ -340,18 +345,18 @@ Relocate(r) ==
     /\ dst' = RelocateResult(r)
     /\ nxt' = r + 1
     /\ ph' = IF r = Len(dst.rels) THEN "done" ELSE ph
-    /\ UNCHANGED <<inp, lay, opt, sub, placed, cur, fail>>
+    /\ UNCHANGED <<job, sub, placed, cur, fail>>
 \* the value does not fit the field (decided by Reloc.tla in the trace specification)
 RelocateFails(r) ==
     /\ ph = "relocate" /\ nxt = r /\ r <= Len(dst.rels)
     /\ FailWith("reloc")
-    /\ UNCHANGED <<inp, lay, opt, nxt, sub, dst, placed, cur>>
+    /\ UNCHANGED <<job, nxt, sub, dst, placed, cur>>
 
 -----------------------------------------------------------------------------
 Finished == ph \in {"done", "failed"}
 Terminated == Finished /\ UNCHANGED vars
 
-(* the linker as ppci built it (free parameters = Design*) *)
+(* the linker as ppci built it: free parameters chosen by the Design operators *)
 DesignNext ==
     \/ Start
     \/ \E o \in 1..Len(inp) :
